@@ -130,7 +130,7 @@ pub fn signature(v: &Violation, sc: &Scenario, rec: &RunRecord) -> String {
             Entry::User { ent, op, .. } => items.push(format!("{}@{}", op.name(), ent)),
             Entry::Inject { what, .. } => items.push(match what {
                 What::Copy { .. } | What::CopyKind { .. } => "replay".to_string(),
-                What::Raw(_) => "inject".to_string(),
+                What::Raw(_) | What::Meta { .. } => "inject".to_string(),
             }),
             Entry::ClockJump { .. } => items.push("clockjump".into()),
             Entry::Stall { ent, .. } => items.push(format!("stall@{}", ent)),
